@@ -39,6 +39,7 @@ class C15:
         self.intermediates = [] # (code, password, explicit_salt)
         self.encrypted = []     # (bip38 string, password, private hex, compressed, address or None)
         self.lotseq_of = {}     # intermediate code -> (lot, sequence)
+        self.sticky_bech32 = {}  # string -> made by a Key after address(encoding='bech32') (the encoding sticks)
         world.log.ev('config', network=self.network)
 
     # -- guarded call with entropy accounting -----------------------------------------------------------------
@@ -175,9 +176,53 @@ class C15:
             self.record_fresh('new_key', {'private': k.private_hex})
         else:
             w.probe('shaped_key:' + shape)
+        # earlier calls on the key object must not change what encrypt() produces (address caches, sticky encodings)
+        primed = []
+        ch_compressed0 = compressed
+        if ch.coin('prime_key', 0.35):
+            for _ in range(ch.int('n_prime', 1, 2)):
+                c = ch.pick('prime', ['address', 'address_bech32', 'address_uncompressed', 'address_compressed_other',
+                                      'wif', 'public', 'as_dict'])
+                if hd and wt != 'legacy' and c in ('address_uncompressed', 'address_compressed_other'):
+                    c = 'address'       # (an uncompressed segwit key is no valid combination)
+                try:
+                    if c == 'address':
+                        k.address()
+                    elif c == 'address_bech32':
+                        k.address(encoding='bech32') if compressed else k.address()
+                    elif c == 'address_uncompressed':
+                        k.address_uncompressed()
+                    elif c == 'address_compressed_other':
+                        k.address(compressed=not compressed) if not hd else k.address()
+                    elif c == 'wif':
+                        k.wif()
+                    elif c == 'public':
+                        k.public()
+                    else:
+                        k.as_dict()
+                    primed.append(c)
+                except StopRun:
+                    raise
+                except Exception as e:
+                    primed.append(c + '!' + type(e).__name__)
+            w.log.ev('primed', calls=primed)
+            if bool(k.compressed) != compressed:
+                # address(compressed=...) / address_uncompressed() switch the key object itself to the other form: from
+                # here on it IS an (un)compressed key, and that is what has to come back
+                w.probe('key_object_switched_compression')
+                compressed = bool(k.compressed)
+        created_compressed = ch_compressed0
+        sticky = (not hd) and ('address_bech32' in primed or
+                               ('address_compressed_other' in primed and not created_compressed))
         ok, enc, _ = self.call('encrypt', lambda: k.encrypt(pw))
+        if not ok and sticky:
+            # arguments of earlier address() calls stick to the key object (recorded finding C15-sticky-address-state);
+            # here they left a combination encrypt() refuses - a refusal is not a wrong key
+            w.probe('encrypt_refused_after_sticky_address_calls')
+            return
         if not ok:
             w.violation('encrypt_failed', {'hdkey': hd}, repr(enc))
+        self.sticky_bech32[enc] = sticky
         self.encrypted.append((enc, pw, k.private_hex, compressed, k.address(),
                                ('HDKey', k.witness_type) if hd else ('Key', None)))
         w.outcome('encrypted')
@@ -231,8 +276,10 @@ class C15:
                     w.violation('wrong_key_returned', {'how': how}, 'decrypted to another key')
                 return
             if not ok:
-                w.violation('right_passphrase_fails', {'ec_multiplied': priv is None,
-                                                       'default_network': self.network == 'bitcoin'}, repr(k)[:200])
+                sig = {'ec_multiplied': priv is None, 'default_network': self.network == 'bitcoin'}
+                if self.sticky_bech32.get(enc):
+                    sig = {'ec_multiplied': False, 'cause': 'sticky_address_state'}
+                w.violation('right_passphrase_fails', sig, repr(k)[:200])
                 return
             if priv is not None and k.private_hex != priv:
                 w.violation('round_trip_changes_key', {'ec_multiplied': False}, 'decrypt(encrypt(k)) != k')
